@@ -43,6 +43,11 @@ type RTEnd struct {
 	UpdReply    func(*api.UpdateContainersRequest) (*api.UpdateContainersResponse, error)
 	Pods        []*api.PodSandbox
 	Ctrs        []*api.Container
+	// Chunks > 1: the state is sent in that many Synchronize messages (all but the last with
+	// More set); AbortAfter > 0: the runtime end drops the connection after that many chunks.
+	Chunks     int
+	AbortAfter int
+	ChunksSent int
 }
 
 type H3 struct {
@@ -51,7 +56,9 @@ type H3 struct {
 	mu   stdsync.Mutex
 	Ends []*RTEnd
 	// Next decides the behaviour of the next dialled connection; "" = unreachable (dial error).
-	Next  func(n int) string
+	Next func(n int) string
+	// Setup, if set, configures a new runtime end before its handshake starts.
+	Setup func(r *RTEnd)
 	Dials int
 }
 
@@ -89,6 +96,9 @@ func (h *H3) Dialer(string) (stdnet.Conn, error) {
 // NewEnd starts a scripted runtime end on conn.
 func (h *H3) NewEnd(n int, kind string, conn *sim.Conn) *RTEnd {
 	r := &RTEnd{h: h, N: n, Kind: kind, Conn: conn, HandshakeAt: map[string][2]int{}}
+	if h.Setup != nil {
+		h.Setup(r)
+	}
 	h.mu.Lock()
 	h.Ends = append(h.Ends, r)
 	h.mu.Unlock()
@@ -182,7 +192,28 @@ func (r *RTEnd) handshake() {
 		r.Close()
 		return
 	}
-	srpl, err := r.PC.Synchronize(ctx, &api.SynchronizeRequest{Pods: r.Pods, Containers: r.Ctrs})
+	var srpl *api.SynchronizeResponse
+	nch := r.Chunks
+	if nch < 1 {
+		nch = 1
+	}
+	for k := 0; k < nch; k++ {
+		lo := func(n int) int { return n * k / nch }
+		hi := func(n int) int { return n * (k + 1) / nch }
+		req := &api.SynchronizeRequest{Pods: r.Pods[lo(len(r.Pods)):hi(len(r.Pods))], Containers: r.Ctrs[lo(len(r.Ctrs)):hi(len(r.Ctrs))], More: k < nch-1}
+		srpl, err = r.PC.Synchronize(ctx, req)
+		if err != nil {
+			break
+		}
+		r.mu.Lock()
+		r.ChunksSent++
+		r.mu.Unlock()
+		if r.AbortAfter > 0 && k+1 >= r.AbortAfter {
+			r.mark("synchronize-aborted")
+			r.Close()
+			return
+		}
+	}
 	r.mu.Lock()
 	r.SyncErr = err
 	if err == nil {
